@@ -102,6 +102,7 @@ pub fn filters_json(fs: &str) -> String {
                 "e" => format!(r#"{{"type":{},"ecu":"ECU{}","ecuIsRegex":false}}"#, t, v),
                 "a" => format!(r#"{{"type":{},"apid":"{}","apidIsRegex":false}}"#, t, v),
                 "c" => format!(r#"{{"type":{},"ctid":"{}","ctidIsRegex":false}}"#, t, v),
+                "r" => format!(r#"{{"type":{},"payloadRegex":{}}}"#, t, serde_json::json!(String::from_utf8(unhex(v)).unwrap())),
                 _ => format!(r#"{{"type":{},"payload":{}}}"#, t, serde_json::json!(String::from_utf8(unhex(v)).unwrap())),
             }
         })
